@@ -559,6 +559,9 @@ struct WsPipe {
     read_chunk_max: usize,
     write_stall_pct: u64,
     write_chunk_max: usize,
+    /// what the transport does once everything queued has been read: 0 would-block (connection stays
+    /// up), 1 end of file, 2 connection reset
+    end_mode: u8,
 }
 
 #[derive(Clone)]
@@ -567,7 +570,13 @@ struct WsRaw { st: Arc<Mutex<WsPipe>> }
 impl Read for WsRaw {
     fn read(&mut self, buf: &mut [u8]) -> std::io::Result<usize> {
         let mut s = self.st.lock().unwrap();
-        if s.to_client.is_empty() { return Err(std::io::Error::new(std::io::ErrorKind::WouldBlock, "none")); }
+        if s.to_client.is_empty() {
+            return match s.end_mode {
+                1 => Ok(0),
+                2 => Err(std::io::Error::new(std::io::ErrorKind::ConnectionReset, "reset")),
+                _ => Err(std::io::Error::new(std::io::ErrorKind::WouldBlock, "none")),
+            };
+        }
         let max = s.read_chunk_max;
         let k = usize::min(usize::min(buf.len(), s.to_client.len()), s.rng.range(1, max as u64) as usize);
         for i in 0..k { buf[i] = s.to_client.pop_front().unwrap(); }
@@ -619,9 +628,13 @@ fn ws_parse_client_frames(bytes: &[u8]) -> Option<(Vec<u8>, usize)> {
 }
 
 fn ws_scenario(idx: u64, r: &mut Rng, l: &mut Local) {
-    let st = Arc::new(Mutex::new(WsPipe { to_client: VecDeque::new(), from_client: Vec::new(), rng: Rng::new(r.next_u64()), read_chunk_max: *r.pick(&[1usize, 7, 100, 5000, 100_000]), write_stall_pct: *r.pick(&[0u64, 0, 30]), write_chunk_max: *r.pick(&[1usize, 10, 100_000]) }));
+    let st = Arc::new(Mutex::new(WsPipe { to_client: VecDeque::new(), from_client: Vec::new(), rng: Rng::new(r.next_u64()), read_chunk_max: *r.pick(&[1usize, 7, 100, 5000, 100_000]), write_stall_pct: *r.pick(&[0u64, 0, 30]), write_chunk_max: *r.pick(&[1usize, 10, 100_000]), end_mode: 0 }));
     let raw = WsRaw { st: st.clone() };
     let replay = json!({"kind": "ws-wrapper", "index": idx});
+    // in a third of the scenarios the peer goes away right behind its last message (optionally after a
+    // close frame): everything it sent before must still come out of read() before the error does
+    let end_mode: u8 = if r.chance(1, 3) { *r.pick(&[1u8, 2]) } else { 0 };
+    let close_frame_first = end_mode != 0 && r.chance(1, 2);
     let mut wrapped = match catch_unwind(AssertUnwindSafe(|| gv::ws_wrap(raw))) { Ok(w) => w, Err(_) => { let _ = take_panic(); return; } };
     l.count("c13.ws_scenarios");
     // server → client: messages of any size, several per underlying read, larger than the caller's buffer, pings in between
@@ -637,6 +650,8 @@ fn ws_scenario(idx: u64, r: &mut Rng, l: &mut Local) {
             s.to_client.extend(frame);
             if r.chance(1, 4) { let ping = ws_frame(9, b"hi"); s.to_client.extend(ping); }
         }
+        if close_frame_first { let close = ws_frame(8, &[0x03, 0xe8]); s.to_client.extend(close); }
+        s.end_mode = end_mode;
     }
     let bufsize = *r.pick(&[1usize, 4, 100, 4096]);
     let mut got = Vec::new();
@@ -656,10 +671,15 @@ fn ws_scenario(idx: u64, r: &mut Rng, l: &mut Local) {
         }
     }
     l.add("c13.ws_bytes_read", got.len());
+    if end_mode != 0 { l.count("c13.ws_peer_gone_after_last_message"); }
     if got != expected {
         let pos = got.iter().zip(expected.iter()).position(|(a, b)| a != b).unwrap_or(usize::min(got.len(), expected.len()));
         let kind = if got.len() != expected.len() { "length" } else { "content" };
-        l.violation("C13.W1-ws-read-returns-wrong-bytes", &[("kind", kind.into())], format!("{} messages ({} payload bytes) read through a {}-byte buffer: got {} bytes, first difference at {}", nmsg, expected.len(), bufsize, got.len(), pos), replay.clone());
+        l.violation("C13.W1-ws-read-returns-wrong-bytes", &[("kind", kind.into()), ("peer_gone_after_last_message", (end_mode != 0).to_string())], format!("{} messages ({} payload bytes) read through a {}-byte buffer: got {} bytes, first difference at {} (end mode {}, close frame {})", nmsg, expected.len(), bufsize, got.len(), pos, end_mode, close_frame_first), replay.clone());
+    }
+    if end_mode != 0 {
+        l.nontrivial(crate::rng::fnv(format!("ws-end|{}|{}", idx, expected.len()).as_bytes()));
+        return;
     }
     // client → server
     let nw = r.range(1, 5) as usize;
@@ -719,7 +739,7 @@ pub fn run_c13(tier: &str, seed: u64) -> i32 {
         id: "C13", level: "exploration", cases: std::env::var("VERIF_C13_CASES").ok().and_then(|v| v.parse().ok()).unwrap_or(if quick { 2_400 } else { 60_000 }),
         rule: "four scenario families per index class: (a) the real threaded client and (b) the real tokio client created through the public new_*_client functions on a scripted in-memory transport (writes accept 1..n bytes or would-block, reads return any fragment, EOF / read error / write error injected, connections refused) with a reference mini-broker behind it: the bytes the transport received must decode as a well-formed MQTT stream whose publishes carry exactly the submitted payloads, inbound publishes must be surfaced in delivery order, and after stop/close racing with submitting threads/tasks every result receiver / future / callback must be resolved exactly once once the event loop is provably gone (a probe submit fails with OperationChannelFailure); (c) a >4096-byte publish on an idle connection; (d) the threaded websocket stream wrapper over an in-memory pipe with frames of any size, several per underlying read, control frames in between and would-block on the underlying write; non-trivial = a scenario reached its oracle; distinct = distinct (family, index, bytes moved)".into(),
         assumptions: vec!["wall clock is used only as a watchdog (counted, never a verdict) except for the corroboration rule C13.R7, whose logical counterpart is C08.R1/R2".into(), "the websocket wrapper is reached through the verif facade (ws_wrap)".into()],
-        gates: vec![("c13.close_races_judged", if quick { 500 } else { 12_000 }), ("c13.publishes_verified", if quick { 300 } else { 8_000 }), ("c13.ws_scenarios", if quick { 400 } else { 10_000 }), ("c13.results_checked", if quick { 2_500 } else { 60_000 })],
+        gates: vec![("c13.close_races_judged", if quick { 500 } else { 12_000 }), ("c13.publishes_verified", if quick { 300 } else { 8_000 }), ("c13.ws_scenarios", if quick { 400 } else { 10_000 }), ("c13.ws_peer_gone_after_last_message", if quick { 100 } else { 2_500 }), ("c13.results_checked", if quick { 2_500 } else { 60_000 })],
         budget_s: if quick { 900 } else { 3600 },
     };
     let only = std::env::var("VERIF_C13_ONLY").ok();
